@@ -3957,8 +3957,9 @@ class ProfilingDataset(Dataset):
     def __len__(self):
         return len(self.input_dataset)
 
+    @property
     def indexable(self):
-        return self.input_dataset.indexable()
+        return self.input_dataset.indexable
 
     def keys(self):
         return self.input_dataset.keys()
